@@ -1,8 +1,59 @@
-(* C12 -- placeholder until Proofs/Lookup.v lands *)
-From Tola Require Import Py.Base Model.Fragment Model.Lookup.
+(* C12 -- Overlap lookup equals a brute-force scan of the scaffold.
+   Only statements, each closed by [exact] of a lemma from Proofs/Lookup.v. *)
+From Tola Require Import Py.Base Model.Fragment Model.Lookup Proofs.Lookup.
 
-Lemma C12_legacy_refuted :
-  find_overlaps_legacy [RF (mkFrag 0 (s "c") 1 10 1 []); RG (mkGap 10 (s "scaffold"))] 11 20
-  = Err IndexError.
-Proof. vm_compute. reflexivity. Qed.
+(* For every non-empty scaffold whose rows are at least 1 bp long and every
+   query 1 <= a <= b (including queries ending past the scaffold end) the
+   lookup does not fail and returns what [lookup_spec] describes: None when no
+   fragment row meets the query; otherwise the contiguous run of rows from the
+   first to the last fragment row meeting the query, with the scaffold
+   coordinates of those two rows. *)
+Theorem C12_lookup_spec : forall rows bs be,
+  rows <> [] -> pos_rows rows -> 1 <= bs <= be ->
+  exists r, find_overlaps rows bs be = Ok r /\ lookup_spec rows bs be r.
+Proof. exact find_overlaps_spec. Qed.
+Print Assumptions C12_lookup_spec.
+
+(* the relational spec determines the answer ... *)
+Theorem C12_spec_unique : forall rows bs be r1 r2,
+  pos_rows rows -> lookup_spec rows bs be r1 -> lookup_spec rows bs be r2 -> r1 = r2.
+Proof. exact lookup_spec_unique. Qed.
+Print Assumptions C12_spec_unique.
+
+(* ... every row between the first and the last returned row meets the query ... *)
+Theorem C12_convex : forall rows bs be fo,
+  pos_rows rows -> lookup_spec rows bs be (Some fo) ->
+  exists i j, (i <= j < length rows)%nat /\ fo_rows fo = firstn (S j - i) (skipn i rows)
+    /\ forall k, (i <= k <= j)%nat -> meets rows bs be k.
+Proof. exact lookup_spec_convex. Qed.
+Print Assumptions C12_convex.
+
+(* ... and the function equals the executable linear scan (filter rows whose
+   span meets the query, strip gaps at both ends) on every input. *)
+Theorem C12_equals_brute_force : forall rows bs be,
+  rows <> [] -> pos_rows rows -> 1 <= bs <= be ->
+  find_overlaps rows bs be = Ok (brute_force rows bs be).
+Proof. exact find_overlaps_eq_brute_force. Qed.
+Print Assumptions C12_equals_brute_force.
+
+Theorem C12_brute_force_spec : forall rows bs be,
+  pos_rows rows -> lookup_spec rows bs be (brute_force rows bs be).
+Proof. exact brute_force_spec. Qed.
+Print Assumptions C12_brute_force_spec.
+
+(* the code at the pinned commit (gap-stripping loops not bounded) fails on a
+   query touching only a trailing gap: the defect repaired by the fix commit *)
+Theorem C12_legacy_refuted :
+  exists rows bs be, rows <> [] /\ pos_rows rows /\ 1 <= bs <= be /\
+    find_overlaps_legacy rows bs be = Err IndexError.
+Proof. exact find_overlaps_legacy_refuted. Qed.
 Print Assumptions C12_legacy_refuted.
+
+(* non-vacuity: a 5-row scaffold with gaps at both ends *)
+Example C12_nonvacuous :
+  let F n := RF (mkFrag 0 (s "c") 1 n 1 []) in
+  let G n := RG (mkGap n (s "scaffold")) in
+  let rows := [G 3; F 10; G 10; F 5; G 2] in
+  find_overlaps rows 5 25 = Ok (brute_force rows 5 25) /\ brute_force rows 5 25 <> None
+  /\ find_overlaps rows 29 40 = Ok None.
+Proof. vm_compute. repeat split; discriminate. Qed.
